@@ -77,7 +77,7 @@ impl Prop for C09 {
         "C09"
     }
     fn cases(&self, ctx: &Ctx) -> u64 {
-        ctx.tier.pick(2000, 50_000)
+        ctx.tier.pick(12_000, 120_000)
     }
     fn rule(&self) -> &'static str {
         "all generators, inputs rendered with LF, CRLF and mixtures (lone CR only inside literals/comments of hostile inputs) x sampled configurations under both line_ending values; oracles: (a) every line break in a gap between reference tokens of the output, in the file tail and inside re-indented multi-line strings is the configured terminator (verbatim regions, asm and untouched multi-line tokens exempt); (b) F_crlf(x) equals F_lf(x) after substituting terminators; (c) F(x with CRLF) == F(x with LF) when x has no line-spanning verbatim token. Non-trivial: output has >= 2 line breaks and the input has a comment or literal; distinct by input hash + configuration."
